@@ -1,5 +1,5 @@
 (* C11 runner: multi-connection histories for the two lifecycle-level models.
-   ops: pkg:t|r  var:l,s,h  cfg:maxPer,maxTotal  keep:m.x/m.x|-  decl:0/1|-
+   ops: pkg:t|r  var:l,s,h,m  cfg:maxPer,maxTotal  keep:m.x/m.x|-  decl:0/1|-
         seg:key,dir,seq,flags,len,ts   fl:t,x   fa
    (x: tcpassembly CloseAll 0/1; reassembly TC).  Times: -1 = the zero time.Time. *)
 open Util
@@ -23,14 +23,14 @@ let events_string (l : C11Common.event list) : string =
 
 let run (id : string) (ops : string list) (out : out_channel) =
   let pkg = ref "t" and mp = ref 0 and mt = ref 0 in
-  let vl = ref true and vs = ref true and vh = ref true in
+  let vl = ref true and vs = ref true and vh = ref true and vm = ref true in
   let keep = ref [] and decl = ref [] in
   let tops = ref [] and rops = ref [] in
   Stdlib.List.iter (fun s ->
     match split_on ':' s with
     | ["pkg"; p] -> pkg := p
     | ["var"; a] -> (match split_on ',' a with
-        | [l; s; h] -> vl := (l = "1"); vs := (s = "1"); vh := (h = "1") | _ -> failwith "var")
+        | [l; s; h; m] -> vl := (l = "1"); vs := (s = "1"); vh := (h = "1"); vm := (m = "1") | _ -> failwith "var")
     | ["cfg"; a] -> (match split_on ',' a with [p; q] -> mp := int_of_string p; mt := int_of_string q | _ -> failwith "cfg")
     | ["keep"; a] -> if a <> "-" then
         keep := Stdlib.List.map (fun e -> match split_on '.' e with
@@ -50,7 +50,7 @@ let run (id : string) (ops : string list) (out : out_channel) =
         | _ -> failwith "fl")
     | ["fa"] -> tops := C11TModel.TFlushAll :: !tops; rops := C11RModel.RFlushAll :: !rops
     | _ -> failwith ("c11 op: " ^ s)) ops;
-  let v = { C11Common.v_lastseen = !vl; C11Common.v_saved = !vs; C11Common.v_hpages = !vh } in
+  let v = { C11Common.v_lastseen = !vl; C11Common.v_saved = !vs; C11Common.v_hpages = !vh; C11Common.v_limit = !vm } in
   if !pkg = "t" then begin
     let tr = C11TModel.trun v (z_of_int !mp) (z_of_int !mt) (Stdlib.List.rev !tops) in
     let stop = ref false in
